@@ -134,17 +134,17 @@ def parse_template(path):
             sink = curfn.spec
         elif w[0] == "loop":
             k = int(w[1].rstrip(":"))
-            o = _kv(d)
+            o = _kv(d.rstrip(":"))
             curfn.loops[k] = {"iter": o.get("iter"), "lines": []}
             sink = curfn.loops[k]["lines"]
         elif w[0] == "closure":
             k = int(w[1].rstrip(":"))
-            o = _kv(d)
+            o = _kv(d.rstrip(":"))
             curfn.closures[k] = {"params": o.get("params"), "ret": o.get("ret"), "lines": []}
             sink = curfn.closures[k]["lines"]
-        elif w[0] == "proof":
+        elif w[0] in ("proof", "ghost"):
             at = d.split(None, 1)[1].rstrip(":").strip()
-            p = {"at": at, "id": str(len(curfn.proofs)), "lines": []}
+            p = {"at": at, "id": str(len(curfn.proofs)), "lines": [], "raw": w[0] == "ghost"}
             curfn.proofs.append(p)
             sink = p["lines"]
         elif w[0] == "mutant":
@@ -251,7 +251,14 @@ def _splice_fn(text, f, info, canary):
         _check_ghost(p["lines"], where)
         body = "\n".join("        " + l for l in p["lines"])
         pat = re.compile(r"__VX_F%d_PROOF_%s__;" % (j, p["id"]))
-        text, n = pat.subn(lambda m: "proof {\n" + body + "\n    }", text)
+        if p.get("raw"):
+            # ghost snapshots: only `let ghost x = <spec expr>;` declarations are accepted outside proof blocks
+            for l in p["lines"]:
+                if l.strip() and not re.match(r"\s*let ghost [A-Za-z_][A-Za-z0-9_]*(\s*:\s*[^=]+)?\s*=\s*[^;]*;\s*$", l):
+                    raise Undecided(f"contract text for {where}: `ghost` sections may only hold `let ghost x = …;` lines (E7)")
+            text, n = pat.subn(lambda m: body.strip(), text)
+        else:
+            text, n = pat.subn(lambda m: "proof {\n" + body + "\n    }", text)
         if n != 1:
             raise Undecided(f"internal: proof marker {p['at']} of {f.name} matched {n} times")
     return text
@@ -330,7 +337,7 @@ def generate(template_path, with_mutants=False):
                 for m in f.mutants:
                     # tolerate prettyplease line breaks: spaces and dots in the pattern match any whitespace around them
                     pat = m["pat"].replace(" ", r"\s*").replace(r"\.", r"\s*\.\s*")
-                    mraw, n = re.subn(pat, m["repl"], raw, count=1)
+                    mraw, n = re.subn(pat, m["repl"], raw, count=1, flags=re.S)
                     if n != 1:
                         raise Undecided(f"negative control {f.name}/{m['name']}: pattern not found in extracted text")
                     mt = mraw
